@@ -2094,13 +2094,24 @@ class FortranFile:
         return None
 
 
+def _c_div(left: int, right: int) -> int:
+    """Integer division of the C preprocessor: truncates towards zero"""
+    quotient = abs(left) // abs(right)
+    return quotient if (left < 0) == (right < 0) else -quotient
+
+
+def _c_mod(left: int, right: int) -> int:
+    """Remainder of the C preprocessor: takes the sign of the dividend"""
+    return left - right * _c_div(left, right)
+
+
 _PP_BIN_OPS = {
     ast.Add: operator.add,
     ast.Sub: operator.sub,
     ast.Mult: operator.mul,
-    ast.FloorDiv: operator.floordiv,
-    ast.Div: operator.floordiv,
-    ast.Mod: operator.mod,
+    ast.FloorDiv: _c_div,
+    ast.Div: _c_div,
+    ast.Mod: _c_mod,
     ast.LShift: operator.lshift,
     ast.RShift: operator.rshift,
     ast.BitAnd: operator.and_,
